@@ -377,7 +377,8 @@ def greedy_rejection(prog: Program, rep, RID: str):
     defs = {}
     for n in ast.walk(loop):
         if isinstance(n, ast.Assign) and len(n.targets) == 1 and isinstance(n.targets[0], ast.Name):
-            defs.setdefault(n.targets[0].id, []).append(norm(n.value))
+            # (float() around an edge length is value-preserving: lengths are summed as Python numbers on both sides)
+            defs.setdefault(n.targets[0].id, []).append(re.sub(r"float\((self\.G\[u\]\[v\]\.get\(self\.length_attr, 1\))\)", r"\1", norm(n.value)))
     want_len = {"len(subpath)", "sum((self.G[u][v].get(self.length_attr, 1) for u, v in subpath))"}
     want_cov = {"self.subpath_constraints_coverage", "self.subpath_constraints_coverage_length"}
     k2 = "kFlowDecomp._get_solution_with_greedy:coverage-variants"
